@@ -101,6 +101,10 @@ impl Polytope {
     /// s.t. self.mat @ x <= self.bias
     #[cfg(feature = "minilp")]
     pub fn solve_linprog(&self, coeffs: Array1<f64>, _verbose: bool) -> PolytopeStatus {
+        #[cfg(feature = "verif-hooks")]
+        if let Some(status) = crate::verif_hooks::intercept(self, &coeffs) {
+            return status;
+        }
         let problem = self.as_linprog(coeffs);
         let pb = problem.solver;
         let vars = problem.vars;
@@ -155,6 +159,10 @@ impl Polytope {
     /// s.t. mat x <= bias
     #[cfg(feature = "highs")]
     pub fn solve_linprog(&self, coeffs: Array1<f64>, verbose: bool) -> PolytopeStatus {
+        #[cfg(feature = "verif-hooks")]
+        if let Some(status) = crate::verif_hooks::intercept(self, &coeffs) {
+            return status;
+        }
         let mut pb = RowProblem::default();
 
         // create the variables for the linear program (objective function + variable bounds)
